@@ -36,6 +36,8 @@ def plan(tier, seed):
     else:
         for n, reps, k in ((2, 40, 1), (3, 40, 2), (4, 30, 8), (5, 20, 32), (6, 20, 128)):
             t += wp.member_tasks(n, reps, k, seed, plain_graph_every=11)
+    for n, cnt in ((4, 8), (5, 8), (6, 16)):
+        t += wp.neighbour_tasks(n, cnt if tier == "quick" else cnt * 12, 16, seed, per_anchor=24 if tier == "quick" else 80)
     random.Random(seed).shuffle(t)
     return t
 
